@@ -390,9 +390,50 @@ func (g *hgen) ret(s *ast.ReturnStmt) {
 }
 
 func (g *hgen) block(list []ast.Stmt) {
-	for _, s := range list {
+	for _, s := range hgNormaliseGuard(list) {
 		g.stmt(s)
 	}
+}
+
+// hgNormaliseGuard: the "nothing to do" guard clause
+//
+//	if A != B { return nil }; REST...; return X        (REST ends the block with a return)
+//
+// is read as its nested form
+//
+//	if A == B { REST...; return X }; return nil
+//
+// (the two are the same program; fidRef.DecRef is written either way).  Only a guard whose condition is a
+// single `!=` comparison and whose body is exactly `return nil` is rewritten, so `if err != nil { return err }` and
+// every other guard keep their reading.
+func hgNormaliseGuard(list []ast.Stmt) []ast.Stmt {
+	for i, s := range list {
+		ifs, ok := s.(*ast.IfStmt)
+		if !ok || ifs.Init != nil || ifs.Else != nil || len(ifs.Body.List) != 1 || i == len(list)-1 {
+			continue
+		}
+		ret, ok := ifs.Body.List[0].(*ast.ReturnStmt)
+		if !ok || len(ret.Results) != 1 {
+			continue
+		}
+		if id, ok := ret.Results[0].(*ast.Ident); !ok || id.Name != "nil" {
+			continue
+		}
+		be, ok := ifs.Cond.(*ast.BinaryExpr)
+		if !ok || be.Op != token.NEQ {
+			continue
+		}
+		rest := list[i+1:]
+		if _, ok := rest[len(rest)-1].(*ast.ReturnStmt); !ok {
+			continue
+		}
+		pos := *be
+		pos.Op = token.EQL
+		nested := &ast.IfStmt{If: ifs.If, Cond: &pos, Body: &ast.BlockStmt{Lbrace: ifs.Body.Lbrace, List: hgNormaliseGuard(rest), Rbrace: ifs.Body.Rbrace}}
+		out := append([]ast.Stmt{}, list[:i]...)
+		return append(out, nested, ret)
+	}
+	return list
 }
 
 func (g *hgen) stmt(s ast.Stmt) {
